@@ -86,10 +86,13 @@ def pick_rc(rng, exact_only, allow_fail):
     return 3
 
 
+NEAR = [False]      # set by the 'near' streams: requires may use the tolerance checker 3
+
 def pick_oc(rng, exact_only):
     if exact_only:
         return 0
     r = rng.random()
+    if NEAR[0] and r < 0.45: return 3
     return 0 if r < 0.6 else (1 if r < 0.8 else 2)
 
 
